@@ -884,6 +884,25 @@ func (x *extractor) stmt(s ast.Stmt) []Node {
 			n.Body = append(n.Body, x.stmt(s.Post)...)
 		}
 		return append(pre, n)
+	case *ast.SelectStmt:
+		n := &SwitchN{Pos: s.Pos(), Tag: "select"}
+		for _, cc := range s.Body.List {
+			cl := cc.(*ast.CommClause)
+			cn := &CaseN{Pos: cl.Pos(), Default: cl.Comm == nil}
+			if cl.Comm != nil {
+				switch cm := cl.Comm.(type) {
+				case *ast.ExprStmt:
+					cn.Vals = []string{x.expr(cm.X)}
+				case *ast.AssignStmt:
+					cn.Vals = []string{x.exprs(cm.Rhs)}
+				case *ast.SendStmt:
+					cn.Vals = []string{x.expr(cm.Chan) + "<-" + x.expr(cm.Value)}
+				}
+			}
+			cn.Body = x.block(cl.Body)
+			n.Cases = append(n.Cases, cn)
+		}
+		return []Node{n}
 	case *ast.BranchStmt:
 		return []Node{&BranchN{Pos: s.Pos(), Tok: s.Tok}}
 	case *ast.LabeledStmt:
